@@ -442,7 +442,7 @@ pub fn run_c01(env: &Env) -> i32 {
             Val::Obj(obj),
         ),
     );
-    rep.campaign("responses", env.cases(1_500, 40_000), (300, 1500), c01_case);
+    rep.campaign("responses", env.cases(6_000, 60_000), (300, 1500), c01_case);
     rep.finish()
 }
 
@@ -482,6 +482,6 @@ pub fn run_c02(env: &Env) -> i32 {
     );
     rep.assume("object keys the selection set cannot produce for the chosen runtime type under any variable assignment are never a reason for rejection (TypeScript object types are open, no emitted type can exclude them); a key the selection set can produce must be absent in a branch that does not select it (the emitted types say `k?: never` there)");
     rep.probe("C02-aliased-typename", probe_c02_tn);
-    rep.campaign("candidates", env.cases(800, 30_000), (300, 1500), c02_case);
+    rep.campaign("candidates", env.cases(3_000, 40_000), (300, 1500), c02_case);
     rep.finish()
 }
